@@ -14,6 +14,7 @@ mod width;
 mod ysrc;
 mod rng;
 mod ser;
+mod tokmap;
 mod total;
 mod util;
 
@@ -43,6 +44,7 @@ fn main() {
         "total-child" => total::child_main(),
         "width" => width::main(&args[2..]),
         "markmap" => mm::main(&args[2..]),
+        "tokmap" => tokmap::main(&args[2..]),
         x => {
             eprintln!("unknown subcommand {}", x);
             2
